@@ -127,3 +127,59 @@ def sv(ctx) -> None:
         return "_current_H" in s or "get_hamiltonian" in s
 
     _callback_checks(ctx, "emu-sv", K, f, "_config", state_pred, ham_pred)
+
+
+def filter_tolerance(ctx) -> None:
+    """An observable is recorded at most once per requested time: two target times are never closer than the merge
+    tolerance of the adapter (_TIME_MERGE_TOLERANCE), so the filter that matches the current time against the requested
+    times must not be wider than that — in `_is_evaluation_time` (default of `tolerance`, forwarded to both config
+    predicates) and at every call of it."""
+    prog = ctx.prog
+    adapter = prog.modules.get("emu_base.pulser_adapter")
+    ctx.require(adapter is not None, "ONCE-tolerance: emu_base.pulser_adapter not found")
+    merge = util.const_value(prog, adapter, ast.Name(id="_TIME_MERGE_TOLERANCE", ctx=ast.Load()))
+    ctx.require(isinstance(merge, float) and merge > 0, "ONCE-tolerance: _TIME_MERGE_TOLERANCE not found")
+    for cq in (MPS, SV):
+        K = prog.cls(cq)
+        f = K.methods["_is_evaluation_time"]
+        a = f.node.args
+        names = [x.arg for x in a.args]
+        dflt = None
+        if "tolerance" in names:
+            i = names.index("tolerance") - (len(names) - len(a.defaults))
+            if i >= 0:
+                dflt = util.const_value(prog, f.module, a.defaults[i], f)
+        okd = isinstance(dflt, float) and 0 < dflt <= merge
+        ctx.ob("ONCE-tolerance", f"{K.name}._is_evaluation_time default", f.loc(), okd,
+               f"the evaluation-time filter matches within {dflt:g} ≤ the {merge:g} that separates two target times" if okd else
+               f"{K.name}._is_evaluation_time matches within {dflt} by default, wider than the {merge:g} that separates "
+               f"two target times: an observable is also recorded at a neighbouring target time")
+        it = Interp(prog, K, inline=lambda c, r, d: False)
+        fw = True
+        n = 0
+        tol = ("param", f.qualname, "tolerance")
+        for p in it.run(f):
+            for e in p.events:
+                if e.kind == "call" and e.name.endswith(("is_time_in_evaluation_times", "is_evaluation_time")) and e.name != f.qualname:
+                    n += 1
+                    v = dict(e.kw).get("tol", e.args.get("tol"))
+                    fw = fw and v is not None and strip_typed(v) == tol
+        ctx.ob("ONCE-tolerance", f"{K.name}._is_evaluation_time forwards the tolerance", f.loc(), fw and n >= 2,
+               "both config predicates are called with tol=tolerance" if fw and n >= 2 else
+               "the config predicates are not called with the function's tolerance (their own default is Pulser's 0.5/duration)")
+        # call sites
+        for m in K.methods.values():
+            for node in util.walk_all(m.node):
+                if isinstance(node, ast.Call) and isinstance(node.func, ast.Attribute) and node.func.attr == "_is_evaluation_time":
+                    targ = util.arg_of(node, f, "tolerance")
+                    ok = targ is None
+                    val = None
+                    if targ is not None:
+                        val = util.const_value(prog, m.module, targ, m)
+                        ok = isinstance(val, float) and 0 < val <= merge
+                    ctx.ob("ONCE-tolerance", f"{K.name}.{m.name} call", m.loc(node), ok,
+                           "the filter is called with its default tolerance" if targ is None else
+                           (f"the filter is called with tolerance {val:g}" if ok else
+                            f"{K.name}.{m.name} calls the evaluation-time filter with tolerance {util.text(targ, 50)}, not a "
+                            f"constant ≤ {merge:g}: a requested time close to another target time is recorded twice, the "
+                            f"second time from the state of the other time"))
